@@ -19,7 +19,7 @@ from .. import gens
 from ..harness import WORK, digest, watchdog, WatchdogTimeout
 
 MANIFEST = {
-    'text': 'Held on every configuration exercised: for the four configurable variants the default config unpacked / as a partial must reproduce the no-option call bit-for-bit on seeded signals; seeded edit histories (<= 12 steps; scalars, None, strings, lists, tuples, arrays at all three depths; existing, new and over-deep paths) are mirrored by a nested-dict model and compared after every step; every resulting config and a family of valid option edits are written to YAML by both routes (file, text->stream) and read back: type and options must match (tuples/arrays may become lists) and for valid edits the reloaded partial must give array_equal output. Sampling, not proof.',
+    'text': 'Held on every configuration exercised: for the four configurable variants the default config unpacked / as a partial must reproduce the no-option call bit-for-bit on seeded signals; seeded edit histories (<= 12 steps; scalars, None, strings, lists, tuples, arrays at all three depths; existing, new and over-deep paths) are mirrored by a nested-dict model and compared after every step; every resulting config and a family of valid option edits are written to YAML by both routes (file, text->stream) and read back: type and options must match (tuples/arrays may become lists) and for valid edits the reloaded partial must give array_equal output. Sampling, not proof. A quarter of the shards run in a session that turns Deprecation/Future/UserWarnings into errors.',
     'note': 'Trusted: PyYAML, numpy. YAML files live under /verif/.work. Exporting converts tuples inside the live config to lists (the store is compared modulo that conversion after an export).',
     'technique': 'history exploration against an executable nested-dict model + differential oracle between delivery routes and across YAML round trips',
 }
